@@ -223,7 +223,8 @@ CLAIMED.update({
             "chromosome report incl. its text) is compared with the real pretext_to_asm.cli on every generated case (recording "
             "get_output_filehandle) and on real files for FASTA/AGP/TPF outputs.",
             "Coq proof (case analysis, fold invariant over the fusion) + in-Coq correspondence + routing oracle", "DESIGN.md 6/C09"),
-    "C10": ("Coq theorems: C10_names_unique_single_haplotype -- end to end through `remap`, every output assembly of every "
+    "C10": ("Coq theorems: C10_two_haplotype_names_end_to_end -- end to end on well-paired painted two-haplotype tiling maps, homologues share the chromosome "
+            "number and the first haplotype's sequence length decides it (ties in map order); C10_names_unique_single_haplotype -- end to end through `remap`, every output assembly of every "
             "completed run has pairwise distinct scaffold names when the generated namespaces are respected and no haplotype "
             "occurs (all hypotheses on the input and the map); C10_names_unique with haplotypes under two further conditions on "
             "the fused scaffolds; fusion keys pairwise distinct for every run; a repeated name is one of three named collisions; "
